@@ -4,12 +4,13 @@ INFO = {}
 
 
 def unit(name, harness, inst, mode='BITS', flavours=('rel',), sites=(), cfg=None, extra=(), diff=False, weight=1,
-         defs=(), witness=False, timeout=600):
+         defs=(), witness=False, timeout=600, forbid=()):
     out = []
     for fl in flavours:
         out.append({'name': f'{name}.{fl}', 'harness': harness, 'inst': inst, 'mode': mode, 'flavour': fl,
                     'sites': list(sites), 'cfg': dict(cfg or {}), 'extra': list(extra), 'diff': diff, 'weight': weight,
-                    'defs': list(defs), 'witness': witness, 'timeout': timeout})
+                    'defs': list(defs), 'witness': witness, 'timeout': timeout,
+                    'forbid_fp_ops': list(forbid)})
     return out
 
 
@@ -54,7 +55,7 @@ def units_C18(tier, seed):
     if tier == 'thorough':
         U += unit('c18_ipow_all16_e24', 'c18_numeric.cpp', 'ipow_all_h<uint16_t,24>()', sites=[1], weight=500)
         U += unit('c18_round_pow2_8_witness', 'c18_numeric.cpp', 'round_pow2_h<uint8_t>()', defs=['VF_WITNESS'], witness=True)
-    return U
+    return U + sizing_units(tier)
 
 
 def units(pid, tier, seed):
@@ -135,8 +136,14 @@ def layout_units(tier, which):
     return U
 
 
+def sizing_units(tier):
+    """conversions into the curve layouts with fixed non-power-of-two extents: the only place where the library itself
+    sizes Morton/Hilbert storage (ipow(round_pow2(max extent), N)); every cell access carries the engine's bounds VC"""
+    return [u for u in units_C05(tier, 0) if u['name'].startswith('c05_convfixed_rowmajor_')]
+
+
 def units_C01(tier, seed):
-    return layout_units(tier, 'C01')
+    return layout_units(tier, 'C01') + sizing_units(tier)
 
 
 def units_C14(tier, seed):
@@ -263,7 +270,20 @@ def units_C10(tier, seed):
 
 
 def more_C10(tier):
-    return []
+    """array-backed: clamp<strided<array>>, clamp below and above linear, extents unbounded (INT/REAL mode)"""
+    th = tier == 'thorough'
+    U = []
+    H = 'c10_array.cpp'
+    for n, c, v in ((1, 'size_t', 'f1'), (2, 'size_t', 'f3'), (3, 'size_t', 'd2'), (1, 'int', 'f1'), (2, 'int', 'd2'), (2, 'unsigned', 'f2'),
+                    (3, 'unsigned', 'f1')) + (((4, 'size_t', 'f1'), (1, 'unsigned', 'd4')) if th else ()):
+        U += unit(f'c10_arrayclamp_{n}_{c}_{v}', H, f'arrayclamp_h<{n},{c},{VEC[v]}>()', 'INT', sites=[1], cfg=SA, diff=(n == 2 and c == 'size_t'),
+                  flavours=('rel', 'san') if c == 'size_t' else ('rel',))
+    for n, v, tc in ((1, 'f1', 'float'), (2, 'f2', 'float'), (3, 'd1', 'double'), (2, 'd2', 'double'), (3, 'f3', 'float')):
+        U += unit(f'c10_lin_below_{n}_{v}_{tc}', H, f'lin_below_h<{n},{VEC[v]},{tc}>()', 'INT', sites=[1], cfg=SA, weight=5 * n)
+    # clamp above linear: decided for N=1 (N=2: the nonlinear bounds VC over floor() terms is not decided by z3 within the cap)
+    for v, tc in (('f1', 'float'), ('d2', 'double')):
+        U += unit(f'c10_lin_above_1_{v}_{tc}', H, f'lin_above_h<1,{VEC[v]},{tc}>()', 'INT', sites=[1], cfg=SA)
+    return U
 
 
 def units_C11(tier, seed):
@@ -307,6 +327,7 @@ def units_C03(tier, seed):
             if not th and j != i % 4 and not (n == 2 and m == 3):
                 continue
             U += unit(f'c03_identity_{n}_{m}_{tc}_{tst}', H, f'lin_identity_h<{n},{m},{tc},{tst}>()', 'INT',
+                      forbid=('fptrunc',) if (tc, tst) == ('double', 'double') else (),
                       sites=[1] + [10 + q for q in range(m)], flavours=('rel', 'dbg') if (n, m) == (2, 3) and j == 0 else ('rel',),
                       diff=(n <= 2 and j == 0), weight=4 ** n, cfg={'query_timeout_ms': 300000})
     if th:
@@ -338,19 +359,20 @@ def units_C09(tier, seed):
     H = 'c09_affine.cpp'
     for n in (1, 2, 3, 4):
         for t in ('float', 'double'):
-            U += unit(f'c09_apply_{n}_{t}', H, f'apply_h<{n},{t}>()', 'INT', sites=[1], diff=(n == 2), flavours=('rel', 'dbg') if n == 2 else ('rel',))
-            U += unit(f'c09_compose_{n}_{t}', H, f'compose_h<{n},{t}>()', 'INT', sites=[1, 2, 3], diff=(n == 2))
+            fb = ('fptrunc',) if t == 'double' else ()
+            U += unit(f'c09_apply_{n}_{t}', H, f'apply_h<{n},{t}>()', 'INT', sites=[1], diff=(n == 2), flavours=('rel', 'dbg') if n == 2 else ('rel',), forbid=fb)
+            U += unit(f'c09_compose_{n}_{t}', H, f'compose_h<{n},{t}>()', 'INT', sites=[1, 2, 3], diff=(n == 2), forbid=fb)
             U += unit(f'c09_factories_{n}_{t}', H, f'factories_h<{n},{t}>()', 'BITS', sites=[1, 2, 3], diff=(n == 3))
             for ln in (2, 3, 4):
                 if ln == 4 and n == 4 and not th:
                     continue
                 if t == 'double' and not th and ln != 3:
                     continue
-                U += unit(f'c09_chain_{ln}_{n}_{t}', H, f'chain_h<{n},{t},{ln}>()', 'INT', sites=[1], diff=(n == 2 and ln == 3), weight=n * ln)
+                U += unit(f'c09_chain_{ln}_{n}_{t}', H, f'chain_h<{n},{t},{ln}>()', 'INT', sites=[1], diff=(n == 2 and ln == 3), weight=n * ln, forbid=fb)
         for m in ((1, 2, 3, 4) if th else ((n % 4) + 1,)):
             t = 'float' if (n + m) % 2 else 'double'
             U += unit(f'c09_layer_{n}_{m}_{t}', H, f'layer_h<{n},{m},{t}>()', 'INT', sites=[1, 2, 3, 4], diff=(n == 2),
-                      flavours=('rel', 'dbg') if n == 3 else ('rel',))
+                      flavours=('rel', 'dbg') if n == 3 else ('rel',), forbid=('fptrunc',) if t == 'double' else ())
     return U
 
 
@@ -371,7 +393,7 @@ INFO['C17'] = {
 }
 INFO['C05'] = {
     'bounds': 'all ordered pairs of {row-major, Morton pdep, Morton portable, Hilbert}, N=1..3 (Hilbert N=2), every extent vector with '
-              'extents 1..2 (quick) / 1..3 for N<=2 and 1..2 for N=3 (thorough), storage float1/double3 with all bit patterns, symbolic '
+              'extents 1..3 for N<=2 and 1..2 for N=3 (quick) / 1..5 for N=2 (thorough), plus fixed non-power-of-two shapes 5x5, 5x3, 6x7, 3x3x3, 3x2x3, 5 (thorough: 9x9, 5x5x5, 6x3x5, 17x3), storage float1/double3 with all bit patterns, symbolic '
               'probe coordinate: same configuration, same value, source unchanged, own storage, round trip, independence of writes, no leak; '
               'whole-stack affine<I1<L1<array>>> -> affine<I2<L2<array>>> for I in {nearest, linear}: matrix and layout-level contents',
     'outside': 'extents above the bound, N=4; CUDA device arrays: cuda_runtime.h is not in the image and no shim was built (CUDA conversion not covered)',
@@ -419,11 +441,28 @@ def units_C05(tier, seed):
                 if not th and n != 2 and (a + b + n) % 2:
                     continue
                 v = 'f1' if (a + b + n) % 2 else 'd3'
-                bnd = 3 if (th and n <= 2) else 2
+                bnd = 3 if n <= 2 else 2
+                if th and n == 2:
+                    bnd = 5
                 ex = ['-mbmi2'] if 1 in (a, b) else []
                 U += unit(f'c05_conv_{LAYNAME[a]}_{LAYNAME[b]}_{n}_{v}', H, f'conv_h<{a},{b},{n},{VEC[v]},{bnd}>()', extra=ex,
                           sites=[1, 2, 3, 4, 5, 6, 7], flavours=('rel', 'san') if (n == 2 and a == 0) else ('rel',),
                           diff=(n == 2 and a == 0), weight=bnd ** n * 10, timeout=1800)
+    # fixed larger extents whose maximum is not a power of two (storage sizing of the curves: 5x5, 3x3x3, ...)
+    fixed = [(2, (5, 5, 0)), (2, (5, 3, 0)), (2, (6, 7, 0)), (3, (3, 3, 3)), (3, (3, 2, 3)), (1, (5, 0, 0))]
+    if th:
+        fixed += [(2, (9, 9, 0)), (3, (5, 5, 5)), (3, (6, 3, 5)), (2, (17, 3, 0))]
+    for n, e in fixed:
+        for a, b in ((0, 1), (0, 2), (2, 0), (1, 2), (0, 3), (3, 0), (2, 3)):
+            if 3 in (a, b) and n != 2:
+                continue
+            if not th and (a, b) in ((1, 2), (2, 3)) and e != (5, 5, 0):
+                continue
+            v = 'f2' if (a + b + n + e[0]) % 2 else 'd1'
+            ex = ['-mbmi2'] if 1 in (a, b) else []
+            U += unit(f'c05_convfixed_{LAYNAME[a]}_{LAYNAME[b]}_{"x".join(str(x) for x in e[:n])}_{v}', H,
+                      f'conv_fixed_h<{a},{b},{n},{VEC[v]},{e[0]},{e[1]},{e[2]}>()', extra=ex, sites=[1, 2, 3, 4, 5, 6, 7],
+                      weight=e[0] * max(1, e[1]) * max(1, e[2]), timeout=1800)
     for i1, l1, i2, l2 in ((0, 0, 1, 2), (1, 0, 0, 1), (1, 2, 1, 0), (0, 1, 0, 0), (1, 0, 1, 3), (0, 3, 1, 0)):
         for n in ((2,) if not th else (1, 2, 3)):
             if 3 in (l1, l2) and n != 2:
